@@ -210,6 +210,25 @@ def ev(fn, args):
         table, sub, order, pre = args
         assert lst(table) == base_table(), 'table'
         return SEP2.join(run_base(sub, [OptionKey(n) for n in lst(order)], lst(pre)))
+    if fn in ('pcreqs', 'pcdedup'):
+        from mesonbuild.modules.pkgconfig import DependenciesHelper
+        h = DependenciesHelper(None, 'n', {})
+        if fn == 'pcreqs':
+            for e in args[2:]:
+                f = e.split(SEP1)
+                h.add_version_reqs(f[0], lst(f[1]) if len(f) > 1 else [])
+            out = ''
+            r = h.format_reqs(lst(args[0]))
+            if r:
+                out += 'Requires: %s\n' % r
+            r = h.format_reqs(lst(args[1]))
+            if r:
+                out += 'Requires.private: %s\n' % r
+            return out
+        h.link_whole_targets = lst(args[0])
+        h.pub_reqs, h.pub_libs, h.priv_reqs, h.priv_libs, h.cflags, h.cflags_private = [lst(a) for a in args[1:7]]
+        h.remove_dups()
+        return SEP1.join(SEP2.join(x) for x in (h.pub_reqs, h.pub_libs, h.priv_reqs, h.priv_libs, h.cflags, h.cflags_private))
     if fn == 'depfile':
         from mesonbuild import depfile as DF
         lines = []
@@ -300,6 +319,8 @@ def oracle_sets(groups):
                     h = FakeHasher()
                     env.hash(h)
                     outs.append(h.data.decode())
+                elif kind == 'pcreqs':
+                    outs.append(ev('pcreqs', [SEP2.join(g['pub']), SEP2.join(g['priv'])] + list(order)))
                 elif kind == 'depfile':
                     outs.append(ev('depfile', [g['name']] + list(order)))
                 elif kind == 'exedigest':
